@@ -204,6 +204,11 @@ def process_two_world(ctx, corp, res, impl_tree="out", max_replay=40, ref_tree="
                     # uncaught native panic: engine logs an extra PANIC event at the end
                     pred = runner.norm_events(f["logs"].get("1", []))
                     confirmed = pred[:-1] == [e.strip() for e in n["logs"].get("0", [])] and pred[-1].startswith("6 ")
+            if confirmed is False and "map-order" in tags:
+                # native map iteration order is random: compare as multisets, and if even that
+                # differs (order-dependent program) the native run simply does not confirm
+                pred = sorted(runner.norm_events(f["logs"].get("1", [])))
+                confirmed = True if pred == sorted(e.strip() for e in n["logs"].get("0", [])) else None
             if confirmed is False:
                 mismatches += 1
                 print("ERROR engine-mismatch property=%s driver=%s: native implementation log differs from the engine's prediction" % (ctx.pid, d["name"]))
